@@ -42,9 +42,17 @@ def run(ctx):
     kf = F.load("C14")
     n = 250 if ctx.tier == "quick" else 6000
     cases, triples_of = [], []
+    stats_typed_classes = [0]
     for i in range(n):
         g = iri_only_graph(rng) if rng.random() < 0.75 else gen.gen_graph(rng)
         cfg = gen.gen_cfg(rng, g, presentation=False, allow_cap=False, allow_ignore=False, allow_or=True)
+        if rng.random() < 0.2:
+            # a class that is itself an instance (ex:Dog a ex:Species . ex:rex a ex:Dog): its shape gets incoming typing arcs `^ rdf:type [ex:rex]`
+            cl = [c for c in gen.classes_of(g, cfg['inst_prop']) if all(t[0][0] == 'I' for t in g if t[1] == cfg['inst_prop'] and t[2] == ('I', c))]
+            if cl:
+                g = g + [(('I', rng.choice(cl)), cfg['inst_prop'], I('Species'))]
+                g = list(dict.fromkeys(g))
+                stats_typed_classes[0] += 1
         cfg['report'] = 'mixed'
         cfg['disable_comments'] = False
         cfg['inverse'] = True
@@ -53,7 +61,8 @@ def run(ctx):
         cases += [(g, cfg), (g, c_dir), (rg, c_dir)]
     ir, dis = base.correspondence(ctx, cases)
     viol = []
-    stats = {"inverse_statements": 0, "compared_with_reverse": 0, "graphs_with_bnodes": 0}
+    stats = {"inverse_statements": 0, "compared_with_reverse": 0, "graphs_with_bnodes": 0, "incoming_typing_constraints": 0,
+             "graphs_with_a_typed_class_added": stats_typed_classes[0]}
     nontriv = 0
     samples = []
     for i in range(0, len(cases), 3):
@@ -81,6 +90,14 @@ def run(ctx):
         for lab in s_inv:
             if lab not in s_dir and any(not st['inv'] for st in s_inv[lab]['stmts']):
                 viol.append({"what": "shape with outgoing constraints appears only with inverse_paths", "label": lab, **pipeline.case_json(g, cfg)})
+        # 1b. the key of a typing constraint is written the same way in both directions: `^ inst [x]` like `inst [C]` (a value set)
+        for lab, sh in s_inv.items():
+            for st in sh['stmts']:
+                if st['inv'] and st['prop'] == cfg['inst_prop']:
+                    stats["incoming_typing_constraints"] += 1
+                    if not all(st.get('value_set', [True])):
+                        viol.append({"what": "incoming typing constraint is not written as a value set: its key differs from the outgoing form `%s [x]`" % cfg['inst_prop'],
+                                     "label": lab, "written": " ".join(st['type_toks']), "shexc": r_inv[2], **pipeline.case_json(g, cfg)})
         # 2. incoming constraints = outgoing constraints of the reversed graph (IRI-only graphs, and no
         #    instance used as a class value, as the property stipulates)
         classes = set(o[1] for s, p, o in g if p == cfg['inst_prop'])
@@ -97,6 +114,40 @@ def run(ctx):
             nontriv += any(st['inv'] for sh in s_inv.values() for st in sh['stmts'])
         if len(samples) < 1 and len(g) < 10 and any(st['inv'] for sh in s_inv.values() for st in sh['stmts']):
             samples.append({"nt": to_nt(g), "shexc_with_inverse": r_inv[2]})
+    # ---------------- the same in the SHACL form: the property shapes with a direct path are those of the run without the option (disjunctions
+    # included: a `sh:or` on an incoming link must sit under sh:inversePath, not appear as a new outgoing constraint)
+    import impl, shacl_text
+    from shexer import consts as _C14
+    stats["shacl_pairs"] = 0
+    stats["shacl_inverse_property_shapes"] = 0
+    for i in range(0, min(len(cases), 3 * (80 if ctx.tier == "quick" else 1500)), 3):
+        (g, cfg) = cases[i]
+        if any(t[0][0] == 'B' or t[2][0] == 'B' for t in g):
+            continue            # blank nodes in value sets: F-C04-4
+        cfg_s = dict(cfg, disable_or=rng.random() < 0.4)
+        docs = []
+        for c in (cfg_s, dict(cfg_s, inverse=False)):
+            r = impl.run_shaper(to_nt(g), c, output_format=_C14.SHACL_TURTLE)
+            docs.append(r)
+        if docs[0][0] != 'ok' or docs[1][0] != 'ok':
+            if docs[0][0] != docs[1][0]:
+                viol.append({"what": "SHACL: result with inverse_paths %s, without %s" % (docs[0][:2], docs[1][:2]), **pipeline.case_json(g, cfg_s)})
+            continue
+        try:
+            p_inv, p_dir = shacl_text.parse(docs[0][1]), shacl_text.parse(docs[1][1])
+        except Exception as e:
+            viol.append({"what": "SHACL not parseable: %s" % str(e)[:120], **pipeline.case_json(g, cfg_s)})
+            continue
+        stats["shacl_pairs"] += 1
+        key = lambda d: (str(d['path']), repr(sorted(map(repr, d['restr']))), str(d['min']), str(d['max']))
+        a = {s_['iri']: sorted(key(d) for d in s_['props'] if not d['inverse']) for s_ in p_inv['shapes']}
+        b = {s_['iri']: sorted(key(d) for d in s_['props'] if not d['inverse']) for s_ in p_dir['shapes']}
+        stats["shacl_inverse_property_shapes"] += sum(1 for s_ in p_inv['shapes'] for d in s_['props'] if d['inverse'])
+        for iri_, props in b.items():
+            if iri_ in a and a[iri_] != props:
+                viol.append({"what": "SHACL: the property shapes with a direct path change with inverse_paths", "shape": iri_, "without": repr(props)[:500],
+                             "with": repr(a[iri_])[:500], "shacl_with_inverse": docs[0][1], **pipeline.case_json(g, cfg_s)})
+                break
     # ---------------- the typing statements in a file of their own (instances_file_input): a class whose instances are only ever objects
     # in the graph has incoming features only - with inverse_paths its shape is there and equals the outgoing constraints of the
     # reversed graph
